@@ -6,7 +6,7 @@ import time
 from fractions import Fraction
 import z3
 
-from .values import (TupleVal, SVal, VecVal, PtrVal, RefVal, Opaque, FuncRef, Path, Shapes, Unsupported, fresh,
+from .values import (LambdaVal, TupleVal, SVal, VecVal, PtrVal, RefVal, Opaque, FuncRef, Path, Shapes, Unsupported, fresh,
                      default_value, const_lifted, select, store, ite, tree_eq, vec_eq, tmap, leaves)
 from . import spec as S
 
@@ -717,6 +717,8 @@ class Exec:
         for c in n.get('inner', ()):
             if c.get('kind') == 'IntegerLiteral':
                 return int(c['value'])
+            if c.get('kind') == 'CXXBoolLiteralExpr':
+                return 1 if c.get('value') in (True, 'true') else 0
             if c.get('kind') in ('ConstantExpr', 'ImplicitCastExpr'):
                 if 'value' in c and c.get('kind') == 'ConstantExpr':
                     try:
@@ -1103,7 +1105,7 @@ class Exec:
             return self.ev(a)
         if z3.is_false(cs):
             return self.ev(b)
-        if _has_call(a) or _has_call(b):
+        if (_has_call(a) or _has_call(b)) and not self.dry:
             # arms with calls / constructions are explored as separate paths
             if self.decide(cv):
                 return self.ev(a)
@@ -1119,7 +1121,7 @@ class Exec:
             y = self.ev(b)
         finally:
             self.guards.pop()
-        if self.version != ver:
+        if self.version != ver and not self.dry:
             raise Unsupported('side effect in conditional operator at line %s' % n.get('_line'))
         if isinstance(x, (PtrVal, RefVal)) or isinstance(y, (PtrVal, RefVal)):
             if self.decide(cv):
@@ -1182,7 +1184,43 @@ class Exec:
         raise ThrowSignal()
 
     def ev_LambdaExpr(self, n):
-        return Opaque('lambda@%s' % n.get('_line'))
+        return LambdaVal(n)
+
+    def apply_lambda(self, lam, args):
+        """value of lam(args...) for a side-effect free lambda; evaluated without generating obligations (used
+        under quantifiers by the std:: algorithm models)"""
+        meths = []
+
+        def find(n):
+            if n.get('kind') == 'CXXMethodDecl' and n.get('name') == 'operator()' and any(
+                    c.get('kind') == 'CompoundStmt' for c in n.get('inner', ())):
+                meths.append(n)
+            for c in n.get('inner', ()):
+                if c.get('kind') in ('CXXRecordDecl', 'FunctionTemplateDecl', 'CXXMethodDecl'):
+                    find(c)
+        find(lam.node)
+        meths = [m for m in meths if 'auto' not in m['type']['qualType'] and 'type-parameter' not in m['type']['qualType']]
+        if not meths:
+            raise Unsupported('lambda without a concrete operator()')
+        m = meths[-1]
+        ps = [c for c in m['inner'] if c.get('kind') == 'ParmVarDecl']
+        body = [c for c in m['inner'] if c.get('kind') == 'CompoundStmt'][0]
+        saved = (dict(self.store), self.dry, self.version)
+        self.dry = True
+        try:
+            for p_, a in zip(ps, args):
+                self.store[p_['id']] = a
+            self.ret_is_ref.append(False)
+            try:
+                self.ex(body)
+                rv = None
+            except ReturnSignal as r:
+                rv = r.val
+            finally:
+                self.ret_is_ref.pop()
+        finally:
+            self.store, self.dry, self.version = saved
+        return rv
 
     # ------------------------------------------------------------------ calls (delegated)
     def ev_CallExpr(self, n):
@@ -1375,7 +1413,50 @@ class Exec:
         self.loops.loop(self, n, cond, inc, body, init)
 
     def st_SwitchStmt(self, n):
-        raise Unsupported('switch')
+        inner = [c for c in n['inner'] if c.get('kind')]
+        cond, body = inner[-2], inner[-1]
+        v = self.ev(cond)
+        if z3.is_bool(v):
+            v = z3.If(v, 1, 0)
+        if body.get('kind') != 'CompoundStmt':
+            raise Unsupported('switch body form')
+        flat = []      # (labels, stmt): labels = list of case values / 'default'
+        for ch in body.get('inner', ()):
+            labels = []
+            st = ch
+            while st.get('kind') in ('CaseStmt', 'DefaultStmt'):
+                if st['kind'] == 'CaseStmt':
+                    lv = self.ev(st['inner'][0])
+                    if z3.is_bool(lv):
+                        lv = z3.If(lv, 1, 0)
+                    labels.append(lv)
+                    st = st['inner'][-1]
+                else:
+                    labels.append('default')
+                    st = st['inner'][-1]
+            flat.append((labels, st))
+        entry = None
+        for idx, (labels, st) in enumerate(flat):
+            hit = False
+            for lv in labels:
+                if not isinstance(lv, str) and self.decide(v == lv):
+                    hit = True
+                    break
+            if hit:
+                entry = idx
+                break
+        if entry is None:
+            for idx, (labels, st) in enumerate(flat):
+                if any(isinstance(lv, str) for lv in labels):
+                    entry = idx
+                    break
+        if entry is None:
+            return
+        try:
+            for labels, st in flat[entry:]:
+                self.ex(st)
+        except BreakSignal:
+            return
 
 
 POW2 = z3.Function('pow2', z3.IntSort(), z3.IntSort())
